@@ -83,7 +83,14 @@ func genC17(t *rapid.T) *c17Scenario {
 	others := []string{"ann", "bob"}
 	n := rapid.IntRange(0, 12).Draw(t, "nsteps")
 	for i := 0; i < n; i++ {
-		switch rapid.SampledFrom([]string{"clientnick", "clientnick", "forced", "other", "other", "traffic"}).Draw(t, "step") {
+		switch rapid.SampledFrom([]string{"clientnick", "clientnick", "forced", "other", "other", "traffic", "toggle_tracking"}).Draw(t, "step") {
+		case "toggle_tracking":
+			// switching state tracking on or off on the live client (it is on no channel, or about to
+			// forget them) must not make it forget who it is
+			if sc.Tracking && sc.JoinChan {
+				continue // "should be enabled ... while the client is not joined to any channels"
+			}
+			sc.Steps = append(sc.Steps, c17Step{Kind: "toggle_tracking"})
 		case "clientnick":
 			want := rapid.SampledFrom([]string{"newnick", "bot", "me", "x" + cur, cur + "2", "Zed"}).Draw(t, "want")
 			refuse := rapid.SampledFrom([]int{0, 0, 1, 2, 3}).Draw(t, "refuse")
@@ -190,8 +197,8 @@ func runC17(sc *c17Scenario) *Violation {
 		if m.Nick != want {
 			return violationf("C17", "%s: Me().Nick = %q, the server uses %q", where, m.Nick, want)
 		}
-		if sc.Tracking {
-			if tm := tc.C.StateTracker().Me(); tm == nil || tm.Nick != want {
+		if tr := tc.C.StateTracker(); tr != nil {
+			if tm := tr.Me(); tm == nil || tm.Nick != want {
 				return violationf("C17", "%s: StateTracker().Me().Nick = %v, the server uses %q", where, tm, want)
 			}
 		}
@@ -256,6 +263,12 @@ func runC17(sc *c17Scenario) *Violation {
 	for si, st := range sc.Steps {
 		where := fmt.Sprintf("step %d (%s %s)", si, st.Kind, st.Nick)
 		switch st.Kind {
+		case "toggle_tracking":
+			if tc.C.StateTracker() != nil {
+				tc.C.DisableStateTracking()
+			} else {
+				tc.C.EnableStateTracking()
+			}
 		case "traffic":
 			conn.SendLine(":ann!a@h PRIVMSG " + cur + " :hello " + cur)
 			conn.SendLine(":irc.server NOTICE " + cur + " :NICK " + cur + "x")
